@@ -32,8 +32,15 @@ def _loop_bounded(lc, t, cap) -> bool:
     if not info or info.get("kind") != "for":
       continue
     for hi in alternatives(info["hi"]):
-      if isinstance(hi, T) and hi.op == "call" and hi.args[0] in ("wp.min", "min") and any(same_affine(x, T("bin", "-", cap, base)) for x in hi.args[1:] if isinstance(x, T)):
-        return True
+      if isinstance(hi, T) and hi.op == "call" and hi.args[0] in ("wp.min", "min"):
+        for x in hi.args[1:]:
+          if not isinstance(x, T):
+            continue
+          # `cap - base`, possibly floored at zero: `max(cap - base, 0)` (an empty range either way once base >= cap)
+          if x.op == "call" and x.args[0] in ("wp.max", "max") and len(x.args) == 3:
+            x = next((y for y in x.args[1:] if not (isinstance(y, T) and y.op == "c" and y.args[0] == 0)), x)
+          if isinstance(x, T) and same_affine(x, T("bin", "-", cap, base)):
+            return True
   return False
 
 
@@ -129,6 +136,9 @@ def check_compaction(db, res):
     _check_not_saturated(res, lc, names, "nvmax_in")
   nc = [a for a in acc if a.is_write and a.root == "ncdof_out"]
   clamp_ok = any(a.value is nv for a in nc) and len(nc) >= 2
+  if not clamp_ok:
+    # the same clamp as one expression: ncdof = min(count, nvmax)
+    clamp_ok = any(isinstance(a.value, T) and a.value.op == "call" and a.value.args[0] in ("wp.min", "min") and any(x is nv for x in a.value.args[1:]) and not a.pc for a in nc)
   res.ob(clamp_ok, "compact|ncdof-clamp", Finding("R-CAP.4", "island._compact_dofs|ncdof|clamp", "ncdof is not clamped to nvmax on overflow (readers use it as a loop bound)", lc.ev.loc))
 
 
